@@ -55,6 +55,8 @@ func init() {
 		Old2: "\tsb := xxhash.New()\n", New2: "\tsb := keyHasher\n\tsb.Reset()\n", Expect: "keyHasher"})
 	mutant(Mutant{Rule: "R-ENGINEWO", Name: "engine-field-written-per-query", File: "engine/engine.go",
 		Old: "\tif opts != nil && opts.LookbackDelta > 0 {\n\t\treturn opts.LookbackDelta\n\t}", New: "\tif opts != nil && opts.LookbackDelta > 0 {\n\t\te.lookbackDelta = opts.LookbackDelta\n\t}", Expect: "lookbackDelta"})
+	mutant(Mutant{Rule: "R-ENGINEWO", Name: "engine-level-counter", File: "engine/engine.go",
+		Old: "\tdisableFallback   bool\n\tlogger            log.Logger\n", New: "\tdisableFallback   bool\n\tcreated           sync.Map\n\tlogger            log.Logger\n", Old2: "\tlplan := logicalplan.New(expr, ts, ts)\n", New2: "\te.created.Store(qs, ts)\n\tlplan := logicalplan.New(expr, ts, ts)\n", Expect: "created"})
 	mutant(Mutant{Rule: "R-FOREIGNAPPEND", Name: "append-into-callers-slice", File: "engine/engine.go",
 		Old: "\toptimizers := make([]logicalplan.Optimizer, 0, len(opts.LogicalOptimizers)+1)\n\toptimizers = append(optimizers, opts.LogicalOptimizers...)\n\topts.LogicalOptimizers = append(optimizers, ", New: "\topts.LogicalOptimizers = append(opts.LogicalOptimizers, ", Expect: "NewDistributedEngine"})
 	mutant(Mutant{Rule: "R-INTCONV", Name: "k-unchecked", File: "execution/aggregate/khashaggregate.go",
@@ -430,15 +432,19 @@ func ruleZeroStep(p *core.Program) []core.Obligation {
 			if !ok || bo.Op != token.ADD {
 				return
 			}
-			// one operand loads the same field, the other depends on a different int field of the receiver
-			var other ssa.Value
-			if a := core.Deref(bo.X); a != nil && core.SameExpr(a, st.Addr) {
-				other = bo.Y
-			} else if a := core.Deref(bo.Y); a != nil && core.SameExpr(a, st.Addr) {
-				other = bo.X
-			} else {
+			// the stored sum depends on the old value of the same field (directly, or through a local cursor that started
+			// from it) and on a different int field of the receiver (the step)
+			selfDep := false
+			core.BackSlice(st.Val, func(x ssa.Value) bool {
+				if a := core.Deref(x); a != nil && core.SameExpr(a, st.Addr) {
+					selfDep = true
+				}
+				return true
+			})
+			if !selfDep {
 				return
 			}
+			other := ssa.Value(bo)
 			var stepLoad *ssa.UnOp
 			var stepField string
 			core.BackSlice(other, func(x ssa.Value) bool {
@@ -818,6 +824,27 @@ func ruleEngineWriteOnce(p *core.Program) []core.Obligation {
 					return // initialising the freshly allocated value
 				}
 				bad[f] = core.FuncName(fn) + " at " + p.Pos(ins.Pos())
+			})
+			// the address of an engine field handed to a call (atomic.Add, sync.Map.Store, Mutex.Lock ...) is a write too
+			core.EachInstr(fn, func(b *ssa.BasicBlock, i int, ins ssa.Instruction) {
+				cc := core.CallCommon(ins)
+				if cc == nil {
+					return
+				}
+				for _, a := range cc.Args {
+					fa, ok := a.(*ssa.FieldAddr)
+					if !ok {
+						continue
+					}
+					n, f, base, ok := core.FieldRef(fa)
+					if !ok || n != nt {
+						continue
+					}
+					if al, fresh := base.(*ssa.Alloc); fresh && al.Parent() == fn {
+						continue
+					}
+					bad[f] = core.FuncName(fn) + " (address passed to " + strings.ReplaceAll(core.CalleeName(cc), core.Module+"/", "") + ") at " + p.Pos(ins.Pos())
+				}
 			})
 		}
 		for i := 0; st != nil && i < st.NumFields(); i++ {
